@@ -97,6 +97,19 @@ def check(run, M, tier):
                   % (cname, unparse(calls[0]) if calls else "nothing", prim), stmt="F3:apply:" + cname)
         d = {k: (v.value if isinstance(v, ast.Constant) else unparse(v)) for k, v in M.func("sigpy.linop.%s.__init__" % cname).defaults.items()}
         run.check(d == {"axes": None, "center": True}, "F3", cname + " defaults", f.loc(), "operator defaults axes=None, center=True", "%s defaults are %s" % (cname, d), stmt="F3:opdef:" + cname)
+    run.rule("F6", "FFT and IFFT name each other as adjoint with the same shape, axes and center (a centred transform's adjoint is the centred inverse), and Identity as normal operator")
+    from ..common import bound_args
+    for cname, other in (("FFT", "IFFT"), ("IFFT", "FFT")):
+        f = M.func("sigpy.linop.%s._adjoint_linop" % cname)
+        rets = [n for n in ast.walk(f.node) if isinstance(n, ast.Return) and n.value is not None]
+        from ..model import resolve_temp
+        val = resolve_temp(f.node, rets[0].value) if len(rets) == 1 else None
+        ba = bound_args(M, f, val) if isinstance(val, ast.Call) else None
+        callee = M.resolve_call(f, val)[1].name if isinstance(val, ast.Call) and M.resolve_call(f, val)[0] == "class" else None
+        ok = callee == other and ba is not None and ba.get("axes") == "self.axes" and ba.get("center") == "self.center" and ba.get("shape") in ("self.ishape", "self.oshape", "shape")
+        run.check(ok, "F6", cname + "._adjoint_linop", f.loc(), "%s(self.ishape, axes=self.axes, center=self.center)" % other,
+                  "%s._adjoint_linop returns `%s`; the adjoint of the %s transform over self.axes is %s with the same axes and the same center flag (dropping one falls "
+                  "back to that constructor's default)" % (cname, unparse(val) if val is not None else "?", "centred/uncentred", other), stmt="F6:" + cname)
     cmp_c09(run, M, "sigpy.util.resize", REF_C09["sigpy.util.resize"], "F5")
     cmp_c09(run, M, "sigpy.util._normalize_axes", REF_C09["sigpy.util._normalize_axes"], "F1")
 
